@@ -96,9 +96,9 @@ CHECKS["C10"] = {
 }
 CHECKS["C14"] = {
     "script": "c14.py", "category": "model_checking",
-    "technique": "exhaustive enumeration of request matrices and request pairs through the real handlers under the controlled scheduler (virtual time, DPOR over the broker's goroutines), with a post-request probe",
+    "technique": "exhaustive enumeration of request matrices and request pairs through the real handlers under the controlled scheduler (virtual time, DPOR over the broker's goroutines), with a post-request probe; tier 2: the same matrix as raw HTTP exchanges with the broker binary",
     "text": "Single requests: 5 methods x 12 paths (all endpoints + near misses) x 17 body classes (empty, valid, mutated-valid, legacy, garbage, 99 999/100 000/100 001/200 000 bytes, bad/absent fingerprint, mismatching/absent relay pattern) x 6 Snowflake-NAT-Type values x 3 broker states; all ordered pairs (triples in thorough) from a reduced alphabet; legacy vs versioned request on identical states. Oracle: the handler returns (no panic), status is valid, virtual time <= 10 s, a fresh proxy+client happy path still works afterwards, legacy outcome equals the versioned outcome under the documented status mapping.",
-    "design_ref": "§3 C14", "note": SCHED_NOTE + " Handlers are registered on a fresh mux with the registrations main() makes; the routing table in main() and raw-socket behaviour of net/http are not covered (tier 1 only).",
+    "design_ref": "§3 C14", "note": SCHED_NOTE + " Tier 1: handlers are registered on a fresh mux with the registrations main() makes. Tier 2 (real time): the broker binary built from the tree, started with -disable-tls on a loopback port, receives the same matrix as raw HTTP (4 256 requests on their own connections, 121 pairs on kept-alive connections) with a strict response parser; afterwards a proxy poll + client offer + answer and every endpoint must still work; a missing response is believed after 3 repetitions. TLS/ACME listeners are not covered.",
 }
 CHECKS["C15"] = {
     "script": "c15.py", "category": "model_checking",
